@@ -6,7 +6,7 @@ Exit 0 iff every stored change is still reported as a VIOLATION (exit 1 of the c
 import glob, json, os, subprocess, sys, shutil
 sel = sys.argv[1:]
 bad = []
-wt = '/var/tmp/mla-verif-seedwt'
+wt = f'/var/tmp/mla-verif-seedwt-{os.getpid()}'
 for d in sorted(glob.glob('/verif/seeded/*/')):
     name = os.path.basename(d.rstrip('/'))
     if sel and not any(name.startswith(s) for s in sel):
